@@ -5,7 +5,7 @@ PROP = "C10"
 LEVEL = "exploration"
 COMPONENTS = {"real": base.COMPONENTS_SYS["real"], "stub": base.COMPONENTS_EX["stub"]}
 RULE_TEXT = base.RULE_EX + " || sysmodel family: " + base.RULE_SYS + ", with the exact model in lock-step inside run_simulator"
-claims = base.prefix_claims(*"C10.,EX.lists.suspend,EX.states,C03.model.,EX.crash".split(","))
+claims = base.prefix_claims(*"C10.,EX.lists.suspend,EX.states,C03.model.,C03.oversell_accepted,EX.crash".split(","))
 execute = base.dispatch_execute
 prepare_replay = base.dispatch_prepare
 sample = base.dispatch_sample
